@@ -194,3 +194,63 @@ def run(rep: Report, prog: Program, tier: str) -> None:
             rep.ok("C10-FEED", f"_handle_rtp_packet: {what}", sample=unparse(assign)[:80])
         else:
             rep.fail(mk_finding(prog, PROP, "C10-FEED", h, assign, msg, construct="feed: " + what))
+
+    # ---- C10-FRAMES (finite evaluation of add() over enumerated loss-free arrival schedules)
+    rep.rule("C10-FRAMES", "loss-free arrival: whole frames, in order, every packet used once", min_instances=60)
+    import itertools
+    from types import SimpleNamespace
+
+    from engine.index import Unknown
+    from engine.peval import Evaluator, Raised
+
+    from .objhook import make_hook
+    oh = make_hook(prog)
+    evj = Evaluator(prog, prog.modules["jitterbuffer"], None, {}, oh)
+    size_sets = [(1, 1, 1, 1), (2, 2, 2, 2), (3, 1, 2, 1), (1, 3, 1, 2), (2, 1, 3, 3), (3, 3, 1, 1), (1, 2, 3, 1)]
+    if tier == "thorough":
+        size_sets = [s + (1,) for s in itertools.product((1, 2, 3), repeat=4)]
+    n_sched = 0
+    for prefetch, sizes, start, swap in itertools.product((0, 1, 2, 3), size_sets, (0, 65530), (None, 1, 3)):
+        # packets of consecutive frames; an extra 1-packet frame at the end flushes the previous ones
+        pkts = []
+        seq = start
+        for fi_, n in enumerate(list(sizes) + [1, 1, 1, 1]):
+            for k in range(n):
+                pkts.append(SimpleNamespace(sequence_number=seq % 65536, timestamp=(1000 + 3000 * fi_) % (1 << 32), _data=bytes([fi_, k]), frame=fi_))
+                seq += 1
+        order = list(range(len(pkts)))
+        if swap is not None and swap + 1 < len(order):
+            order[swap], order[swap + 1] = order[swap + 1], order[swap]      # one adjacent reordering
+        label = f"prefetch {prefetch}, frame sizes {sizes}, first seq {start}, " + ("in order" if swap is None else f"packets {swap}/{swap + 1} swapped")
+        n_sched += 1
+        try:
+            jb = oh.instantiate(ci, [], dict(capacity=16, prefetch=prefetch, is_video=True), evj)
+            out = []
+            pli = False
+            for i in order:
+                r = oh.run_method(add, jb, [pkts[i]], {})
+                pli = pli or bool(r[0])
+                if r[1] is not None:
+                    out.append(r[1])
+        except Raised as ex:
+            rep.fail(mk_finding(prog, PROP, "C10-FRAMES", add, getattr(ex, "node", None), f"[{label}] add() raises {ex.name}", construct=f"frames raises {ex.name}"))
+            continue
+        except Unknown as ex:
+            raise AnalysisError(f"C10-FRAMES cannot evaluate [{label}]: {ex}")
+        want = []
+        for fi_ in range(len(sizes) + 4):
+            want.append((b"".join(p._data for p in pkts if p.frame == fi_), pkts[[p.frame for p in pkts].index(fi_)].timestamp))
+        got = [(f.data, f.timestamp) for f in out]
+        problems = []
+        if got != want[:len(got)]:
+            bad = next(i for i, g in enumerate(got) if i >= len(want) or g != want[i])
+            problems.append(f"released frame #{bad} is {got[bad][0].hex()} but frame #{bad} sent was {(want[bad][0].hex() if bad < len(want) else 'nothing')}")
+        if len(got) < len(sizes):
+            problems.append(f"only {len(got)} of the first {len(sizes)} frames were released although {4} later frames arrived completely")
+        if pli:
+            problems.append("a key-frame request was raised although nothing was lost")
+        if problems:
+            rf = prog.func(JB + "._remove_frame")
+            rep.fail(mk_finding(prog, PROP, "C10-FRAMES", rf, rf.node, f"[{label}] " + "; ".join(problems), construct="frames: " + problems[0].split(" is ")[0][:40] + f" (prefetch {prefetch})"))
+        else:
+            rep.ok("C10-FRAMES", label, sample=f"{len(got)} frames released, each complete and in order")
